@@ -538,6 +538,20 @@ func (g *cssGen) declaration() string {
 				vs = append(vs, r.Pick([]string{g.length(), "auto", "0", "0px"}))
 			}
 		}
+		if r.Chance(1, 6) {
+			// the same function with different arguments in every position (the sides must not be folded together)
+			fsAll := [][]string{
+				{"env(safe-area-inset-top)", "env(safe-area-inset-right)", "env(safe-area-inset-bottom)", "env(safe-area-inset-left)"},
+				{"max(1em,env(safe-area-inset-top))", "max(1em,env(safe-area-inset-right))", "max(1em,env(safe-area-inset-top))", "max(1em,env(safe-area-inset-left))"},
+				{"attr(data-v px)", "attr(data-h px)", "attr(data-v px)", "attr(data-w px)"},
+				{"calc(1px + var(--x))", "calc(1px + var(--y))", "calc(1px + var(--x))", "calc(1px + var(--y))"},
+			}
+			fs := fsAll[r.Intn(len(fsAll))]
+			vs = vs[:0]
+			for i := 0; i < r.Range(2, 4); i++ {
+				vs = append(vs, fs[i])
+			}
+		}
 		val = sp(vs...)
 	case 2, 3:
 		name = r.Pick([]string{"border", "border-top", "border-left", "border-bottom", "border-right", "outline", "column-rule"})
@@ -564,6 +578,9 @@ func (g *cssGen) declaration() string {
 		val = sp(parts...)
 	case 4:
 		name = r.Pick([]string{"border-color", "border-style"})
+		if r.Chance(1, 8) {
+			return "border-color" + g.ws() + ":" + g.ws() + r.Pick([]string{"light-dark(tan,teal) light-dark(teal,tan)", "light-dark(red,blue) light-dark(red,green) light-dark(red,blue) light-dark(red,gray)"})
+		}
 		n := r.Range(1, 4)
 		var vs []string
 		for i := 0; i < n; i++ {
@@ -903,9 +920,18 @@ func c04Minify(src string, c c04Config) (string, error, string) {
 				pan = fmt.Sprint(r)
 			}
 		}()
+		// inline mode is selected in one of three documented ways: the parameter, the option field, or both
 		var params map[string]string
 		if c.inline {
-			params = map[string]string{"inline": "1"}
+			switch len(src) % 3 {
+			case 0:
+				params = map[string]string{"inline": "1"}
+			case 1:
+				o.Inline = true
+			default:
+				o.Inline = true
+				params = map[string]string{"inline": "1", "charset": "utf-8"}
+			}
 		}
 		err = o.Minify(m, &out, strings.NewReader(src), params)
 	}()
